@@ -36,6 +36,7 @@ harness("c19_threads_tsan", "tsan", "pbt/c19_threads.cc", link="-lrapidcheck")
 harness("c19_threads_asan", "san", "pbt/c19_threads.cc", link="-lrapidcheck")
 harness("c06_history_plain", "plain", "pbt/c06_history.cc", link="-lrapidcheck")
 harness("dec_fuzz", "san", "fuzz/dec_fuzz.cc", link="-fsanitize=fuzzer")
+harness("dec_tamper", "san", "fuzz/dec_tamper.cc", link="-lrapidcheck")
 # the command line tools of the repository, plain optimised build (C15 pipelines)
 harness("draco_encoder", "plain", "repo:src/draco/tools/draco_encoder.cc", whole_archive=True)
 harness("draco_decoder", "plain", "repo:src/draco/tools/draco_decoder.cc", whole_archive=True)
@@ -532,7 +533,7 @@ def run_fuzz(res, prop, exe, seed_dirs, seconds, workers, empty_workers, tier):
 
 def check_dec(prop, tier):
     t0 = time.time()
-    exes = ensure_built(["geom_pbt", "dec_enum", "dec_fuzz"])
+    exes = ensure_built(["geom_pbt", "dec_enum", "dec_fuzz", "dec_tamper"])
     res = Result()
     seeds = gen_seed_streams(prop, tier)
     sys.stderr.write("[%s] seed streams regenerated at %.0fs\n" % (prop, time.time() - t0))
@@ -543,6 +544,10 @@ def check_dec(prop, tier):
         run_shards(res, prop, "dec_enum", exes["dec_enum"], "enum", tier, 64, 1,
                    extra_env={"VERIF_SEED_DIRS": seed_dirs, "VERIF_SEED": str(SEED)}, timeout=7200)
         sys.stderr.write("[%s] enumeration done at %.0fs\n" % (prop, time.time() - t0))
+        if not res.failures:
+            # semantic tampering (entropy-coded single-value corruptions of small geometries)
+            run_shards(res, prop, "dec_tamper", exes["dec_tamper"], "tamper", tier, 16, 25 if tier == "quick" else 500)
+            sys.stderr.write("[%s] semantic tampering done at %.0fs\n" % (prop, time.time() - t0))
         if not res.failures:
             run_fuzz(res, prop, exes["dec_fuzz"], [seeds, os.path.join(VERIF, "corpus", "legacy")],
                      40 if tier == "quick" else 1200, 12, 4, tier)
@@ -555,13 +560,15 @@ def check_dec(prop, tier):
     res.classes["regenerated_seed_streams"] = nseeds
     res.required_classes = ["class_truncation", "class_byte_pattern", "class_u32_pattern", "class_varint_pattern",
                             "class_header_rewrite", "class_splice", "class_multi_site", "class_count_u32",
-                            "class_count_varint", "fuzz_executions"] if not (prop == "C18" and tier == "quick") else \
-        ["class_count_u32", "class_count_varint", "fuzz_executions"]
+                            "class_count_varint", "fuzz_executions", "tampered_symbol", "tampered_traversal_symbol",
+                            "tampered_bit"] if not (prop == "C18" and tier == "quick") else \
+        ["class_count_u32", "class_count_varint", "fuzz_executions", "tampered_symbol", "tampered_traversal_symbol",
+         "tampered_bit"]
     return finish(prop, tier, res, t0, level="fault_enumeration",
                   assumptions=["single-site corruptions are complete only for the listed patterns and for offsets below the dense "
                                "bound of long seeds; multi-site corruptions, splices and libFuzzer executions are samples",
-                               "semantic (entropy-coded) tampering of traversal symbols is not enumerated in this revision; such "
-                               "streams are reached only through libFuzzer mutations",
+                               "semantic tampering (one traversal symbol / entropy-coded symbol / flag bit altered before entropy "
+                               "coding) is enumerated per case up to a budget of 240 (thorough 1500) tampered encodes, sampled beyond",
                                "C18 constants: K0 = 48 MiB fixed overhead, K = 256 bytes per unit of (input length + declared "
                                "points/faces/components/symbols); DRACO_DCHECKs are compiled out as in every release build",
                                "hangs: a decode that exceeds the 25 s libFuzzer limit / the watchdog is re-run alone three times "
